@@ -112,6 +112,21 @@ def inc_scenarios(tier, nets=("N2", "N5")):
                         yield {"net": netname, "sessions": ss, "sched": {"kind": "rr", "sort": sort, "est": est, "unint": False, "inc": inc}, "period": 5}
 
 
+def period_scenarios(tier, nets=("N2", "N5")):
+    """period lengths that do not divide an hour (8 min = 7.5 periods/h, 45 min = 1.33 periods/h): the conversion of
+    remaining energy into amp-periods enters every bound and the laxity / processing-time keys"""
+    thorough = tier == "thorough"
+    for netname in nets:
+        stations = list(S.NETS[netname]["stations"])
+        for ss in S.session_subsets(_pool(stations, (0, 1), (3,)), 1, 2):
+            for j, s in enumerate(ss):
+                s["ed"] = s["d"] + (1, 2, 4)[j % 3]
+            for period in (8, 45):
+                for kind in ("greedy", "rr"):
+                    for sort in (SORTS if thorough else ("llf", "lrpt", "fcfs")):
+                        yield {"net": netname, "sessions": ss, "sched": {"kind": kind, "sort": sort, "est": False, "unint": False, "inc": 1}, "period": period}
+
+
 class Capture:
     """on_call/on_return pair recording, per invocation, the true state and the output"""
 
